@@ -23,6 +23,18 @@ class AnalysisError(Exception):
 # E1 index
 
 
+def _literal_like(value):
+    """a literal, possibly spelled with the pure builtins list/tuple/range over literals (`list(range(1, 11))`)"""
+    for n in ast.walk(value):
+        if isinstance(n, ast.Attribute):
+            return False
+        if isinstance(n, ast.Name) and n.id not in ("list", "tuple", "range"):
+            return False
+        if isinstance(n, ast.Call) and not (isinstance(n.func, ast.Name) and n.func.id in ("list", "tuple", "range") and not n.keywords):
+            return False
+    return True
+
+
 class Index:
     def __init__(self, root=None):
         self.root = root or REPO
@@ -71,8 +83,7 @@ class Index:
             except Exception:
                 continue
             for st in mod.body:
-                if isinstance(st, ast.Assign) and len(st.targets) == 1 and isinstance(st.targets[0], ast.Name) and not any(
-                        isinstance(n, (ast.Name, ast.Call, ast.Attribute)) for n in ast.walk(st.value)):
+                if isinstance(st, ast.Assign) and len(st.targets) == 1 and isinstance(st.targets[0], ast.Name) and _literal_like(st.value):
                     nme = st.targets[0].id
                     if nme in table:
                         dup.add(nme)
@@ -80,8 +91,7 @@ class Index:
                 if isinstance(st, ast.ClassDef):
                     # class-level literal tables, addressed as `Class.NAME`
                     for cs in st.body:
-                        if isinstance(cs, ast.Assign) and len(cs.targets) == 1 and isinstance(cs.targets[0], ast.Name) and not any(
-                                isinstance(n, (ast.Name, ast.Call, ast.Attribute)) for n in ast.walk(cs.value)):
+                        if isinstance(cs, ast.Assign) and len(cs.targets) == 1 and isinstance(cs.targets[0], ast.Name) and _literal_like(cs.value):
                             nme = f"{st.name}.{cs.targets[0].id}"
                             if nme in table:
                                 dup.add(nme)
